@@ -39,6 +39,9 @@ type Enc struct {
 	Fields []Field
 	// NoMap disables field recording (bulk encodes).
 	NoMap bool
+	// LCBump widens LowCardinality keys beyond the minimal width (0..3 steps; any sufficient
+	// width is valid on the wire, and real servers do send wider keys than necessary).
+	LCBump int
 }
 
 func (e *Enc) mark(n int, r Role) {
@@ -171,6 +174,7 @@ func EncodeColumn(e *Enc, t *Type, rows []Val) {
 		default:
 			kw = 2
 		}
+		kw = min(3, kw+e.LCBump)
 		e.U64(uint64(kw)|1<<9|1<<10, RMeta)
 		e.U64(uint64(len(dict)), RMeta)
 		EncodeColumn(e, t.Elem[0], dict)
@@ -185,6 +189,9 @@ func EncodeColumn(e *Enc, t *Type, rows []Val) {
 			case 2:
 				e.B = binary.LittleEndian.AppendUint32(e.B, uint32(k))
 				e.mark(4, RKey)
+			case 3:
+				e.B = binary.LittleEndian.AppendUint64(e.B, uint64(k))
+				e.mark(8, RKey)
 			}
 		}
 	case KMap:
